@@ -30,7 +30,7 @@ def run(ctx):
                 "{std, cache-type-score, fix-weight-length, tag-prediction, charwise-pma} (quick: none, each single feature, each "
                 "single feature removed; thorough: all 32 subsets + portable-simd on nightly); Trace_Pair requires the observations "
                 "of every build to equal the default build's; non-trivial = (build, history) pair with a non-bias score")
-    sc = _score.generate(ctx, True, only=["F1-char-ngrams", "F2-ngram-and-word", "F3-wide-windows", "F4-type-ngrams", "F6-mixed", "F7-type-gaps", "F10-cancelling"])
+    sc = _score.generate(ctx, True, only=["F1-char-ngrams", "F2-ngram-and-word", "F3-wide-windows", "F4-type-ngrams", "F6-mixed", "F7-type-gaps", "F10-cancelling", "F11-right-only"])
     stride = max(1, len(sc) // (240 if ctx.quick else 500))
     score_h = []
     for fam, c in sc[::stride]:
